@@ -602,7 +602,7 @@ func (in *Input) outOfDomain(s *Spec) []string {
 	seen := map[string]bool{}
 	for i := range ot.Fields {
 		f := &ot.Fields[i]
-		if seen[f.Name] {
+		if seen[f.Name] && f.Name != "_" {
 			why = append(why, "duplicate field name")
 		}
 		seen[f.Name] = true
@@ -610,7 +610,7 @@ func (in *Input) outOfDomain(s *Spec) []string {
 			continue
 		}
 		if f.Name == "_" {
-			why = append(why, "blank field retained")
+			// mirrored as `_ T`; the copy loop passes over it since repair adc955a: inside the domain
 		} else if !exported(f.Name) && s.RHS == "sel" {
 			why = append(why, "unexported field of a foreign origin retained (c)")
 		}
@@ -715,7 +715,7 @@ func (in *Input) shadowClass() bool {
 		}
 		for i := range in.Types[s.Origin].Fields {
 			f := &in.Types[s.Origin].Fields[i]
-			if omit[f.Name] {
+			if omit[f.Name] || f.Name == "_" { // no copy statement for omitted and blank fields
 				continue
 			}
 			ps := map[string]bool{}
